@@ -263,3 +263,7 @@ Proof.
   - rewrite St1, St2. exact Hs.
   - rewrite Sp1, Sp2. exact Hst.
 Qed.
+
+Lemma sim_agree j1 j2 :
+  job_sim j1 j2 -> utc (job_datetime j1) = utc (job_datetime j2) /\ has_attempts j1 = has_attempts j2.
+Proof. intros H. split; [exact (sim_due j1 j2 H)|exact (sim_has_attempts j1 j2 H)]. Qed.
